@@ -5,9 +5,10 @@ package interp
 import "fmt"
 
 type epoch struct {
-	gid  int
-	t    int
-	site string
+	gid     int
+	t       int
+	site    string
+	harness bool // the accessing function itself is harness code
 }
 
 type shadow struct {
@@ -58,7 +59,7 @@ func (ps *pathState) onRead(fr *frame, addr *value) {
 			}
 		}
 		if !found {
-			sh.reads = append(sh.reads, epoch{g.id, g.clk[g.id], ps.siteOf(fr)})
+			sh.reads = append(sh.reads, epoch{g.id, g.clk[g.id], ps.siteOf(fr), ps.eng.isHarnessFn(fr.fn)})
 		}
 	}
 }
@@ -87,7 +88,7 @@ func (ps *pathState) writeCell(fr *frame, g *goroutine, cell *value) {
 			ps.reportRace(fr, "write", r, "read")
 		}
 	}
-	sh.w = epoch{g.id, g.clk[g.id], ps.siteOf(fr)}
+	sh.w = epoch{g.id, g.clk[g.id], ps.siteOf(fr), ps.eng.isHarnessFn(fr.fn)}
 	sh.hasW = true
 	sh.reads = sh.reads[:0]
 }
@@ -104,6 +105,11 @@ func (ps *pathState) onWriteSlice(fr *frame, cells []value) {
 
 func (ps *pathState) reportRace(fr *frame, kind string, prev epoch, prevKind string) {
 	if !ps.eng.isRepoFn(fr.fn) {
+		return
+	}
+	if prev.harness && ps.eng.isHarnessFn(fr.fn) {
+		// both accesses are in harness code: not a property of the repository
+		ps.harnessRaces++
 		return
 	}
 	site := ps.siteOf(fr)
